@@ -8,7 +8,7 @@ use super::ops::Op;
 use super::oracle::Violation;
 use super::sched::ScriptSched;
 
-pub const HARNESS_VERSION: u32 = 3;
+pub const HARNESS_VERSION: u32 = 4;
 
 #[derive(Clone, Debug, Serialize, Deserialize)]
 pub struct ReplayFile {
@@ -101,8 +101,19 @@ pub fn minimise(
                 hids: hids.clone(),
                 release: u32::MAX,
             }),
-            Op::Crash { lose_answers: true } => Some(Op::Crash {
+            Op::Crash {
+                lose_answers: true,
+                down_s,
+            } => Some(Op::Crash {
                 lose_answers: false,
+                down_s: *down_s,
+            }),
+            Op::Crash {
+                lose_answers: false,
+                down_s,
+            } if *down_s != 1 => Some(Op::Crash {
+                lose_answers: false,
+                down_s: 1,
             }),
             Op::Time { ms } if *ms > 1 => Some(Op::Time { ms: 1 }),
             _ => None,
